@@ -4,7 +4,9 @@ SPEC = {
     "engine": "E1", "level": "exploration",
     "technique": "replay monitor (identity diffs a node serves vs canonical identity roots, incl. reorged servers) + export/import differential + corruption injection on snapshot archives "
                  "+ the REAL protocol.fastSync driven over two real gossip handlers (wire path included) with replay / state-equality / continuation oracles on the fast-synced node "
-                 "and on a second-generation node synced from it",
+                 "and on a second-generation node synced from it + hostile servers for the real consumer (well-formed snapshot of another state announced with its own root; served range with "
+                 "one identity diff missing: must be refused without moving, then the honest artifacts must complete) + state-API differential right after the switch (getters of the node's main "
+                 "app state vs the fully synced node's read-only view)",
     "level_text": "(a) what a node stores and serves per height (GetIdentityDiff, as provideBlocks) is replayed with fast sync's own sequence on a "
                   "follower identity tree for every canonical height, for a straight server and a server that reorganised; (b) WriteSnapshot2 "
                   "at retained heights and of large synthetic states (multi-chunk, empty values, contract stores) imported with "
@@ -20,13 +22,29 @@ SPEC = {
                   "height the stored header is the canonical one and the stored identity diff (chain.GetIdentityDiff = what it serves), replayed in order on the identity state of the "
                   "start height, reproduces the canonical identity root; head / roots / full contents of both trees equal the fully synced node's at the snapshot height; the node "
                   "accepts the following canonical blocks and ends in the same state; a second-generation node fast-syncs by the same real path FROM the fast-synced node (from the "
-                  "headers, certificates and diffs that node stores and serves) and must pass the same oracles. A refused sync of correct artifacts is a violation.",
+                  "headers, certificates and diffs that node stores and serves) and must pass the same oracles. A refused sync of correct artifacts is a violation. "
+                  "(f) hostile servers, same real path, every kind of server: (f1) the header range is honest, the manifest announces the canonical snapshot height together with the root and the cid of a "
+                  "WELL-FORMED snapshot of another state, produced by the real WriteSnapshot2 (the canonical contents with one balance / one identity changed or one account added, or the state of an "
+                  "earlier height): postConsuming must refuse and head, roots and every state-API answer of the node must be what they were; a node that switches must hold exactly the canonical root and "
+                  "contents (else altered-snapshot-accepted:<class>); (f2) the server has lost the stored identity diff of ONE block whose canonical header changes the identity root (validation-finishing, "
+                  "empty, kill-tx, other proposed blocks; the real provideBlocks then serves that block without diff): processBatch must refuse that very block - a preliminary head at or above it, or a "
+                  "completed sync, is omitted-identity-diff-accepted:<block kind> (a completed one is also given to oracle (1), which reports the stored diff sequence); snapshot heights both before and "
+                  "after the next identity change. After every correct refusal an honest peer serves the correct artifacts and the node must complete from where it stands and pass all oracles. "
+                  "(g) state API after the switch, in EVERY real sync (fresh nodes, nodes with a full-synced prefix, after restarts, second generation, after a refusal): the node answers ~2000 getter calls "
+                  "(accounts: balance / nonce / epoch / existence / contract fields; identities: raw record, status, stake, invites, penalty, delegatee, shard ...; global: epoch, fee per gas, validation period, "
+                  "next validation time, last snapshot, seeds ...; status / delegation / penalty switch lists; flags of the identity state; validator view) for every address of its own and of the canonical "
+                  "state before the sync and right before the switch (populating the object caches as a running node does), and again right after postConsuming returned, before any block: every answer must "
+                  "equal the fully synced node's read-only view at the snapshot height (state-api-stale-after-snapshot-import:<getter class>); thousands of the sampled values moved in between "
+                  "(balances, nonces, accounts created / deleted, identities created / killed, epoch).",
     "level_note": "the state snapshot path is RecoverSnapshot2 as fast sync calls it; in (e) the snapshot travels through SnapshotManager.DownloadSnapshot from the in-memory ipfs stub, "
                   "but the manifest is built by the harness from the serving node's own WriteSnapshot2 export (manifest gossip / best-manifest selection and real IPFS are not executed), "
                   "and the ~10 lines of Downloader.Load that cut the range into batches are mirrored (batches are requested and consumed one at a time). libp2p host / connection / stream "
-                  "are in-memory fakes. The certificate retention rule of the sparse-certificate server (consensus/engine.go + IsPermanentCert) is mirrored with a certificate range of 40.",
+                  "are in-memory fakes (in the hostile cases the fake connection is torn down synchronously when the node bans the peer, otherwise the real code may send the reload "
+                  "request into the closed stream and sit in its own 20 s timeout). The server of (f2) is the honest server with one record (the identity diff of one height) deleted from its database for the "
+                  "duration of the case; the altered states of (f1) are built on a private copy of the server's state (ForCheckWithOverwrite + StateDB.AddDiff + the real setters). The reference of (g) is "
+                  "AppState.Readonly(snapshot height) of the node that applied every block. The certificate retention rule of the sparse-certificate server (consensus/engine.go + IsPermanentCert) is mirrored with a certificate range of 40.",
     "rule": "case = one height replayed, one import attempt, one real fast sync or one following block applied on a fast-synced node; distinct_nontrivial = distinct non-empty diffs "
-            "(per job / generation) + distinct corrupted archives (snapshot, class, content hash) + distinct real syncs (generation, server, world, start height, snapshot height, batch size, interruption)",
+            "(per job / generation) + distinct corrupted archives (snapshot, class, content hash) + distinct real syncs (generation, server, world, start height, snapshot height, batch size, interruption) + distinct hostile syncs (class, server, world, heights, altered root / omitted height)",
     "jobs": [Job("sync", "verifsim", "^TestVerifC11$", shards=(8, 16), timeout=(900, 7200)),
              Job("realsync", "protocol", "^TestVerifC11FastSync$", shards=(6, 12), timeout=(900, 7200), extra_tags="c11")],
     "floors": {"diffs_replayed": (2000, 20000), "diffs_nonempty": 200, "server_reorgs": 100, "snapshot_roundtrips": 20, "max_chunks_in_one_archive": 2,
@@ -46,9 +64,34 @@ SPEC = {
                "real_sync_heights_served_without_cert": (500, 12000), "real_sync_batches_ending_with_deferred_headers": (6, 150),
                "real_sync_resumed": (15, 120), "real_sync_resumed_after_restart": (5, 50),
                "real_sync_state_compared_with_full_node": (80, 450), "real_sync_following_blocks_accepted": (1500, 12000),
-               "real_sync_blocks_with_body_fetched_by_bloom": (1000, 13000)},
+               "real_sync_blocks_with_body_fetched_by_bloom": (1000, 13000),
+               # job realsync: hostile servers
+               "hostile_syncs:altered-snapshot": (24, 120), "hostile_outcome:altered-snapshot:refused": (24, 120),
+               "hostile_syncs:altered-snapshot:one-balance-changed": (4, 20), "hostile_syncs:altered-snapshot:state-of-earlier-height": (4, 20),
+               "hostile_syncs:altered-snapshot:one-identity-changed": (4, 20), "hostile_syncs:altered-snapshot:one-account-added": (4, 20),
+               "hostile_syncs:omitted-identity-diff": (22, 110), "hostile_outcome:omitted-identity-diff:refused": (22, 110),
+               "hostile_syncs:omitted-identity-diff:validation-finishing-block": (2, 10), "hostile_syncs:omitted-identity-diff:empty-block": (2, 10),
+               "hostile_syncs:omitted-identity-diff:block-with-kill-tx": (2, 10), "hostile_syncs:omitted-identity-diff:proposed-block-without-txs": (2, 10),
+               "hostile_syncs:omitted-identity-diff:proposed-block-with-other-txs": (2, 10),
+               "hostile_syncs:omitted-identity-diff:no-later-identity-change-up-to-the-snapshot": (6, 30),
+               "hostile_syncs:omitted-identity-diff:later-identity-changes-up-to-the-snapshot": (10, 50),
+               "hostile_syncs:altered-snapshot:via-straight-server": (6, 30), "hostile_syncs:altered-snapshot:via-reorged-server": (6, 30),
+               "hostile_syncs:altered-snapshot:via-sparse-cert-server": (6, 30), "hostile_syncs:omitted-identity-diff:via-straight-server": (6, 30),
+               "hostile_syncs:omitted-identity-diff:via-reorged-server": (6, 30), "hostile_syncs:omitted-identity-diff:via-sparse-cert-server": (4, 20),
+               "hostile_sync_recovered_with_honest_artifacts": (46, 230),
+               # job realsync: state API right after the switch
+               "state_api_syncs_probed": (120, 600), "state_api_syncs_probed:node-with-own-prefix": (40, 200),
+               "state_api_reads_compared": (200000, 1000000), "state_api_reads_compared:account": (50000, 250000), "state_api_reads_compared:identity": (80000, 400000),
+               "state_api_reads_compared:global": (1500, 7500), "state_api_reads_compared:switch-lists": (400, 2000),
+               "state_api_addresses_changed_between_start_and_snapshot": (5000, 25000),
+               "state_api_addresses_changed_between_start_and_snapshot:node-with-own-prefix": (1500, 7500),
+               "state_api_changed:balance-moved": (4000, 20000), "state_api_changed:nonce-moved": (2500, 12000), "state_api_changed:account-deleted": (20, 100),
+               "state_api_changed:account-created": (2500, 12000), "state_api_changed:identity-created": (100, 500),
+               "state_api_changed:identity-killed-or-removed": (600, 3000), "state_api_changed:epoch-moved": (60, 300)},
     "parallel": 16,
     "assumptions": ["consensus config V12",
                     "job realsync: wall-clock timeouts of the real code (20 s per block in processBatch, 20 s handshake) that expire without a preceding refusal by the node give an "
-                    "inconclusive result, not a violation"],
+                    "inconclusive result, not a violation",
+                    "job realsync (g): the getters are read on the node's MAIN app state between blocks, as RPC / ceremony / mempool code of a running node does for StateDB; for the main "
+                    "IdentityStateDB the production code only reads the flags while it applies a block (blockchain.applyStatusSwitch), so what the class identity-state of (g) reports on the unchanged tree (IdentityStateDB.SwitchToPreliminary keeps the live-object cache) is a latent defect of the object, not one a production call path reaches today"],
 }
